@@ -111,7 +111,7 @@ def execute(case, script=None):
     ctx = RunCtx(PROP, view if cfg['world'] == 'mdp' else None)
     if cfg['world'] == 'mdp' and case['spec'].get('proper'):
         ctx.W = game_W(view)
-    ctx.declare_probes('nested_run', 'rerun_after_abort', 'aborts_delivered', 'cap_before_absorption', 'cap_at_absorption', 'cap_after_absorption', 'cap_zero', 'start_absorbing',
+    ctx.declare_probes('nested_run', 'rerun_after_abort', 'aborts_delivered', 'default_cap_rollouts', 'cap_before_absorption', 'cap_at_absorption', 'cap_after_absorption', 'cap_zero', 'start_absorbing',
                        'start_sampled', 'stopped_by_cap', 'stopped_by_absorption', 'pomdp_rollouts', 'mdp_rollouts',
                        'deterministic_exact_eval', 'long_rollout_400_steps', 'policy_updated_in_place')
     sched = make_scheduler(case, script, ctx)
@@ -224,10 +224,22 @@ def _exec_mdp(view, cfg, ctx, sched):
                 if what == 'run_on':
                     pol.run_on(mdp, initial_state=None if start is None else sk[start], max_steps=20, rng=SimRandom(sched))
                 else:
-                    Policy.evaluate_on(pol, mdp, n_simulations=3, max_steps=6, rng=SimRandom(sched))
+                    Policy.evaluate_on(pol, mdp, n_simulations=3, max_steps=2 + cfg['abort'] % 5, rng=SimRandom(sched))
             except InjectedAbort:
                 ctx.probe('aborts_delivered')
             ctx.disarm(hook)
+        runs.clear()
+        if view.spec.get('proper'):
+            # ... and the next roll-out relies on the DEFAULT step cap: on a model where every policy is absorbed with
+            # probability 1 it must run until absorption
+            try:
+                trd = pol.run_on(mdp, initial_state=None if start is None else sk[start], rng=rng)
+            except (Violation, Inconclusive):
+                raise
+            except Exception as e:
+                raise Violation('exception', f"roll-out with the default step cap (after an aborted evaluation): run_on raised {type(e).__name__}: {e}")
+            ctx.probe('default_cap_rollouts')
+            _check_mdp_rollout(ctx, view, pol_tab, trd, start, int(2 ** 30), 'roll-out with the default step cap after an aborted evaluation')
         runs.clear()
     nested = None
     if cfg.get('nest') is not None:
